@@ -140,17 +140,16 @@ class MutableKernelSizes:
         :return: New kernel size
         :rtype: int
         """
+        max_kernels = self.calc_max_kernel_sizes(channel_size, stride_size, input_shape)
         if kernel_size is not None:
-            if self.tuple_sizes:
-                assert isinstance(kernel_size, tuple), "Kernel size must be a tuple."
-            else:
-                assert isinstance(kernel_size, int), "Kernel size must be an integer."
+            # An explicit size is the (square) width / height of the kernel, as returned by a
+            # previous call. It is clamped to the range the random draw below is taken from,
+            # so that applying the mutation of one network to another keeps the layer valid.
+            if isinstance(kernel_size, (tuple, list)):
+                kernel_size = kernel_size[-1]
 
-            new_kernel_size = kernel_size
+            new_kernel_size = max(1, min(int(kernel_size), max_kernels[hidden_layer]))
         else:
-            max_kernels = self.calc_max_kernel_sizes(
-                channel_size, stride_size, input_shape
-            )
             new_kernel_size = np.random.randint(1, max_kernels[hidden_layer] + 1)
 
         if self.tuple_sizes:
@@ -507,6 +506,8 @@ class EvolvableCNN(EvolvableModule):
                 hidden_layer = np.random.randint(1, min(4, len(self.channel_size)), 1)[
                     0
                 ]
+            else:
+                hidden_layer = min(hidden_layer, len(self.channel_size) - 1)
 
             new_kernel_size = self.mut_kernel_size.change_kernel_size(
                 hidden_layer,
